@@ -141,3 +141,71 @@ register(PropertySpec(
                  "reported informationally only", "cleanup statements do not raise"],
     design_ref="DESIGN.md §2 C04",
 ))
+
+from . import the as the_rules
+
+register(PropertySpec(
+    id="C06",
+    title="`the` returns the unique solution or raises, consistently with `an`",
+    rules=[
+        Rule("THE-OUTCOME", the_rules.rule_the_outcome, 3,
+             "typestate interpretation of the evaluator The.evaluate calls (constants of the call site propagated; "
+             "solutions consumed in {0,1,>=2}; _is_false_ entry values closed under re-evaluation): outcomes are exactly "
+             "0 -> raises NoSolutionFound, 1 -> returns the solution, >=2 -> raises MultipleSolutionFound"),
+        Rule("RESET-ALL-EXITS", reset.rule_reset_all_exits_the, 1,
+             "The.evaluate resets the per-evaluation state on every exit, including both exceptions it is specified to "
+             "raise: the outcome is the same on re-evaluation"),
+        Rule("PROJECTION-SHARED", the_rules.rule_projection_shared, 3,
+             "The.evaluate and An.evaluate turn the evaluated binding into the user value through the same "
+             "_process_result_ implementation"),
+    ],
+    explanation="The three outcomes of `the` are decided by a typestate interpretation of its evaluator over the finite "
+                "state space (result None/solution, solutions consumed 0/1/>=2, _is_false_), exception classes resolved "
+                "through the import table to failures.py; repeatability by the reset-on-all-exits rule; agreement with "
+                "`an` by showing both entries project through one function. Not decided: that the child generator "
+                "enumerates each satisfying assignment exactly once (C02).",
+    assumptions=["data is unchanged between evaluations", "the child generator yields one binding per satisfying assignment"],
+    design_ref="DESIGN.md §2 C06",
+))
+
+from . import aggregates
+
+register(PropertySpec(
+    id="C17",
+    title="concatenate yields a single value: all inner elements, in order",
+    rules=[
+        Rule("CONCAT-ONCE", aggregates.rule_concat_once, 3,
+             "Concatenate._evaluate__ yields exactly one row on every path (counting domain {0,1,many} over the CFG), "
+             "the row is yielded after the loop over child bindings, and accumulation is unconditional"),
+        Rule("EVAL-SIGNATURE", aggregates.rule_eval_signature, 15,
+             "sibling agreement: every override of _evaluate__ accepts the parameters of the abstract declaration "
+             "under the names its callers use"),
+    ],
+    explanation="Decides: exactly-one-row by counting yields over all CFG paths; and interface agreement among the "
+                "implementations of the evaluation protocol (a concatenate used where the protocol passes "
+                "yield_when_false must accept it). Not decided: order and multiplicity inside the accumulated list and "
+                "membership tests against it (list algebra on runtime values).",
+    assumptions=[],
+    design_ref="DESIGN.md §2 C17",
+))
+
+from . import ruletree
+
+register(PropertySpec(
+    id="C12",
+    title="a rule tree selects, per match, the conclusion ripple-down rules prescribe",
+    rules=[
+        Rule("TREE-SURGERY", ruletree.rule_tree_surgery, 2,
+             "every function that wraps the current node in a conclusion selector: saves the node's parent, detaches, "
+             "attaches the selector under the saved parent and - when that parent is a binary operator - re-points the "
+             "operand slot that held the node (slot chosen by identity, or the other slot excluded by re-targeting)"),
+    ],
+    explanation="Attaching a branch rewires the condition tree in place; evaluation follows the left/right fields, not "
+                "the graph edges, so a selector that is attached in the graph but not stored in its parent's operand slot "
+                "is never evaluated. The protocol is inferred from the two functions that perform it and checked on "
+                "both (sibling cross-check). Not decided: conclusion selection at run time (ExceptIf/Alternative "
+                "bookkeeping depends on runtime truth flags).",
+    assumptions=["attachment points are the nodes pushed by `with rule_mode(query)` / `with refinement(...)` / "
+                 "`with alternative(...)`"],
+    design_ref="DESIGN.md §2 C12",
+))
